@@ -166,7 +166,7 @@ func c16Run(t *testing.T, p *world.PKI, v checks.Variant, clientSide bool, pos i
 			cnt := 0
 			base := w.EmittedCount()
 			_ = base
-			w.OnEmit = func(d *world.Datagram) {
+			w.SetOnEmit(func(d *world.Datagram) {
 				if d.Src != x.Addr {
 					return
 				}
@@ -181,7 +181,7 @@ func c16Run(t *testing.T, p *world.PKI, v checks.Variant, clientSide bool, pos i
 					close(holdHit)
 					<-holdRelease
 				}
-			}
+			})
 		}
 		stage := "handshake"
 		if act == actHoldClose {
@@ -202,7 +202,7 @@ func c16Run(t *testing.T, p *world.PKI, v checks.Variant, clientSide bool, pos i
 				_ = n.Pump(2*time.Second, func() bool { return hit() || wr.Done() })
 			}
 			if !hit() {
-				w.OnEmit = nil
+				w.SetOnEmit(nil)
 				o.Skip = true
 				pr.CloseAll()
 				return
@@ -214,7 +214,7 @@ func c16Run(t *testing.T, p *world.PKI, v checks.Variant, clientSide bool, pos i
 			c2 := startCloseNoSkew(w, x, 2)
 			w.SettleLoose()
 			close(holdRelease)
-			w.OnEmit = nil
+			w.SetOnEmit(nil)
 			w.SettleLoose()
 			if !world.MutexBlocked() {
 				w.Settle()
@@ -395,13 +395,13 @@ func c16Run(t *testing.T, p *world.PKI, v checks.Variant, clientSide bool, pos i
 			// inside WriteTo and let the application call Close on X meanwhile.
 			hit, rel := make(chan struct{}), make(chan struct{})
 			once := false
-			w.OnEmit = func(d *world.Datagram) {
+			w.SetOnEmit(func(d *world.Datagram) {
 				if d.Src == x.Addr && !once {
 					once = true
 					close(hit)
 					<-rel
 				}
-			}
+			})
 			from := w.EmittedCount()
 			yc := startClose(w, y, 0)
 			isHit := func() bool {
@@ -424,7 +424,7 @@ func c16Run(t *testing.T, p *world.PKI, v checks.Variant, clientSide bool, pos i
 				w.SettleLoose()
 			}
 			if !isHit() {
-				w.OnEmit = nil
+				w.SetOnEmit(nil)
 				o.Class += "/no-reply"
 				w.Settle()
 				finish(w, pr, n, x, y, bad)
@@ -433,7 +433,7 @@ func c16Run(t *testing.T, p *world.PKI, v checks.Variant, clientSide bool, pos i
 			c1 := startCloseNoSkew(w, x, 1)
 			w.SettleLoose()
 			close(rel)
-			w.OnEmit = nil
+			w.SetOnEmit(nil)
 			w.SettleLoose()
 			if !world.MutexBlocked() {
 				w.Settle()
